@@ -116,7 +116,7 @@ impl RoutingTable {
 
         for bucket in self.buckets.values() {
             for node in &bucket.nodes {
-                closest.add(node.clone());
+                closest.insert(node.clone());
             }
         }
 
@@ -128,7 +128,7 @@ impl RoutingTable {
         let mut closest = ClosestNodes::new(target);
 
         for node in self.nodes() {
-            closest.add(node);
+            closest.insert(node);
         }
 
         closest
